@@ -248,7 +248,7 @@ pub fn run08(ctx: &Ctx) -> i32 {
     ctx.sample(json!({"part": "pair", "a": format!("{:?}", core[5]), "b": format!("{:?}", core[77])}));
     ctx.finish(
         "model_checking",
-        "all 5760 single-element configurations (bounds 4 x tilt 3 x space{inside,outside,missing} x next_to{None,inside,outside,missing} x U override{-,set} x construction{ok,missing} x multiplier{1,2.5} x window{none,resolvable,unresolvable construction,overridden,overridden+unresolvable}) in a fixed two-space context; all 9216 ordered pairs over a 96-configuration core (+ list reversal and id relabeling on every 5th pair); 9 bridge kinds x l{-1,-0.0,0,2.5} x psi{0,.1,-.05} singly and all together; 7 shipped models; oracle: K, totals, categories, u_min/u_max/u_mean, bridge sums recomputed in f64 from the model by the statement's formula (wall U from Wall::u_value, window U from the C07 formula) with an interval for the 0.01 m2 rounding of net areas; non-trivial = envelope area > 0",
+        "all 5760 single-element configurations (bounds 4 x tilt 3 x space{inside,outside,missing} x next_to{None,inside,outside,missing} x U override{-,set} x construction{ok,missing} x multiplier{1,2.5} x window{none,resolvable,unresolvable construction,overridden,overridden+unresolvable}) in a fixed two-space context; all 9216 ordered pairs over a 96-configuration core (when both elements have a window the first wall gets a second window stored after the second wall's, so its windows are not contiguous in the list; + list reversal and id relabeling on every 5th pair); 9 bridge kinds x l{-1,-0.0,0,2.5} x psi{0,.1,-.05} singly and all together; 7 shipped models; oracle: K, totals, categories, u_min/u_max/u_mean, bridge sums recomputed in f64 from the model by the statement's formula (wall U from Wall::u_value, window U from the C07 formula) with an interval for the 0.01 m2 rounding of net areas; non-trivial = envelope area > 0",
         true,
         json!({"singles": n, "pairs": np}),
     )
